@@ -1,6 +1,7 @@
 package main
 
 import (
+	. "digverif/vt"
 	"reflect"
 
 	"go.uber.org/dig"
